@@ -290,7 +290,8 @@ def run_case(case, ch: Choices) -> RunResult:
                     "ensure_ascii": not ch.chance("peer.raw_unicode", 1, 2),
                     "encoding": ch.pick("peer.encoding", [None, None, None, "utf-8-sig", "utf-16", "utf-32", "latin1-label", "utf-16-le"]),
                     # half of the healthy endpoints only know the June 2018 introspection schema
-                    "legacy": ch.chance("peer.legacy_introspection_schema", 1, 2)}
+                    "legacy": ch.chance("peer.legacy_introspection_schema", 1, 2),
+                    "empty_errors": ch.pick("peer.empty_errors", [None, None, "list", "null"])}
             if http["legacy"]:
                 res.bump("peer.legacy_introspection_schema")
             if http["encoding"]:
